@@ -49,12 +49,13 @@ structure DE (G : SFrame → Prop) (s s' : Streams) : Prop where
   ids : ∀ p ∈ s'.store.ids, p ∈ s.store.ids
   openQ : ∀ k ∈ s'.prio.pendingOpen, k ∈ s.prio.pendingOpen
   desc : ∀ k x', s'.store.get? k = some x' → ∃ x, s.store.get? k = some x ∧ SameE G x x'
+  next : NextOK s.counts.isServer s.actions.send.nextStreamId s'.actions.send.nextStreamId
 
-theorem DE.refl (s : Streams) : DE G s s := ⟨CE.refl _, rfl, fun _ h => h, fun _ h => h, fun _ x' h => ⟨x', h, SameE.refl _⟩⟩
+theorem DE.refl (s : Streams) : DE G s s := ⟨CE.refl _, rfl, fun _ h => h, fun _ h => h, fun _ x' h => ⟨x', h, SameE.refl _⟩, NextOK.refl _ _⟩
 
 theorem DE.trans {a b c : Streams} (h1 : DE G a b) (h2 : DE G b c) : DE G a c := by
   refine ⟨h1.counts.trans h2.counts, h2.nextKey.trans h1.nextKey, fun p hp => h1.ids p (h2.ids p hp),
-    fun k hk => h1.openQ k (h2.openQ k hk), ?_⟩
+    fun k hk => h1.openQ k (h2.openQ k hk), ?_, h1.next.trans (by rw [← h1.counts.isServer]; exact h2.next)⟩
   intro k x'' hx''
   obtain ⟨x', hx', d'⟩ := h2.desc k x'' hx''
   obtain ⟨x, hx, d⟩ := h1.desc k x' hx'
@@ -62,24 +63,26 @@ theorem DE.trans {a b c : Streams} (h1 : DE G a b) (h2 : DE G b c) : DE G a c :=
 
 theorem DE.of_df {s s' : Streams} (h : DF s s') : DE G s s' :=
   ⟨CE.of_cd h.counts, h.nextKey, h.ids, h.openQ,
-   fun k x' hx => by obtain ⟨x, hx, d⟩ := h.desc k x' hx; exact ⟨x, hx, SameE.of_sameD d⟩⟩
+   fun k x' hx => by obtain ⟨x, hx, d⟩ := h.desc k x' hx; exact ⟨x, hx, SameE.of_sameD d⟩, h.next⟩
 
 theorem DE.of_store_eq {s s' : Streams} (hst : s'.store = s.store) (hc : CE s.counts s'.counts)
-    (hq : ∀ k ∈ s'.prio.pendingOpen, k ∈ s.prio.pendingOpen) : DE G s s' :=
-  ⟨hc, by rw [hst], fun p hp => by rw [hst] at hp; exact hp, hq, fun k x' hx => ⟨x', by rw [← hst]; exact hx, SameE.refl _⟩⟩
+    (hq : ∀ k ∈ s'.prio.pendingOpen, k ∈ s.prio.pendingOpen)
+    (hn : NextOK s.counts.isServer s.actions.send.nextStreamId s'.actions.send.nextStreamId) : DE G s s' :=
+  ⟨hc, by rw [hst], fun p hp => by rw [hst] at hp; exact hp, hq, fun k x' hx => ⟨x', by rw [← hst]; exact hx, SameE.refl _⟩, hn⟩
 
 theorem DE.panic' (s : Streams) (m : String) : DE G s (s.panic m) :=
   DE.of_store_eq (panic_store _ _) (by rw [panic_counts]; exact CE.refl _) (by unfold Streams.prio; rw [panic_actions]; exact fun _ h => h)
+    (by rw [panic_actions]; exact NextOK.refl _ _)
 
 theorem DE.modCounts (s : Streams) (f : Counts → Counts) (h : CE s.counts (f s.counts)) : DE G s (s.modCounts f) :=
-  DE.of_store_eq rfl h (fun _ h => h)
+  DE.of_store_eq rfl h (fun _ h => h) (NextOK.refl _ _)
 
 theorem DE.setQOpen (s : Streams) (l : List Nat) (hl : ∀ k ∈ l, k ∈ s.prio.pendingOpen) : DE G s (s.setQ .pendingOpen l) :=
-  DE.of_store_eq rfl (CE.refl _) hl
+  DE.of_store_eq rfl (CE.refl _) hl (NextOK.refl _ _)
 
 theorem DE.setStream (s : Streams) (st' : Stream) (h : ∀ x, s.store.get? st'.key = some x → SameE G x st') :
     DE G s (s.setStream st') := by
-  refine ⟨CE.refl _, rfl, fun _ hp => hp, fun _ hk => hk, ?_⟩
+  refine ⟨CE.refl _, rfl, fun _ hp => hp, fun _ hk => hk, ?_, NextOK.refl _ _⟩
   intro k x' hx'
   rw [setStream_get?] at hx'
   cases hk : s.store.get? k with
@@ -141,12 +144,13 @@ structure Inv2 (sv : Bool) (E : Nat → Prop) (s : Streams) : Prop where
   fr : ∀ k st, s.store.get? k = some st → ∀ pk pid fl, SFrame.pushPromise pk pid fl ∈ st.pendingSend → locId sv pid = true
   p3 : ErrOK s → ∀ k st, s.store.get? k = some st → locId sv st.id = true → Early st → E k
   dir : ErrOK s → s.counts.numSendStreams = cntP (sendCounted sv) s
+  next : ∀ x, s.actions.send.nextStreamId = some x → locId sv x = true
 
 /-- everything but `dir` survives a `DE` step -/
 theorem DE.inv2 {s s' : Streams} {sv : Bool} {E : Nat → Prop} (h : DE G s s') (hi : Inv2 sv E s)
     (hG : ∀ pk pid fl, G (.pushPromise pk pid fl) → locId sv pid = true)
     (hdir : ErrOK s' → s'.counts.numSendStreams = cntP (sendCounted sv) s') : Inv2 sv E s' := by
-  refine ⟨h.counts.isServer.trans hi.role, ?_, ?_, ?_, ?_, hdir⟩
+  refine ⟨h.counts.isServer.trans hi.role, ?_, ?_, ?_, ?_, hdir, ?_⟩
   · intro k hk
     have := hi.p1 k (h.openQ k hk)
     refine ⟨by rw [h.nextKey]; exact this.1, ?_⟩
@@ -167,6 +171,13 @@ theorem DE.inv2 {s s' : Streams} {sv : Bool} {E : Nat → Prop} (h : DE G s s') 
   · intro herr k st' hst' hloc he
     obtain ⟨x, hx, d⟩ := h.desc k st' hst'
     exact hi.p3 (h.counts.errOK herr) k x hx (by rw [← d.id]; exact hloc) (d.early he)
+  · intro y hy
+    obtain ⟨x, hx, _, hpar⟩ := h.next y hy
+    rcases hpar with e | e
+    · have := hi.next x hx
+      unfold locId at this ⊢
+      rw [e]; exact this
+    · rw [hi.role] at e; exact e
 
 theorem DF.inv2 {s s' : Streams} {sv : Bool} {E : Nat → Prop} (h : DF s s') (hA : KeysOK s) (hi : Inv2 sv E s) : Inv2 sv E s' := by
   refine (DE.of_df (G := fun _ => False) h).inv2 hi (fun _ _ _ h => h.elim) ?_
